@@ -7,9 +7,24 @@ V = Path(__file__).resolve().parent.parent
 
 # id -> (design_ref, technique, level text, level note)   — only properties with a working check
 CLAIMED = {
+    "C04": ("3.4", "Lean 4 theorems over Mathlib's gaussianReal (sharp Gaussian tail, chi-square-type tail, infinite union-bound series via zeta(2)/zeta(4), coverage >= 1-delta) about the same RealLike schedule terms the driver runs at Float + correspondence of compute_radius/alpha/beta and region construction",
+            "Proof: for each schedule (VOGP, eps-PAL, Auer, PaVeBa, PaVeBaGP rect/ellipsoid, PaVeBaPartialGP rect) the infinite sum over rounds, designs and objectives of the actual Gaussian / chi-square-type tail probabilities at the schedule's scale is proved summable and <= delta at contraction 1 (HasSum / Summable ∧ tsum), and turned into coverage >= 1-delta; PaVeBaPartialGP ellipsoid is `_partial` (missing only K=1, delta in (1/2,1), 3<=m<=6, covered by the labelled numeric scan). The formulas proved about are the identical polymorphic terms evaluated at Float and compared (1e-9) with the real compute_* methods; real modeling() output is compared with the model's region construction.",
+            "Assumes Gaussian noise of the configured variance with t samples at round t (bandit algorithms), Gaussian posterior marginals (GP algorithms); Float rounding not modelled; Auer's empirical-beta branch is compared only (no summable bound exists)."),
+    "C08": ("3.8", "Lean 4 theorems: run state machine, P = Pareto.fast of row means, planar cone lemma => deterministic accuracy, Chernoff + union bound on a product Gaussian measure => (eps,delta)-PAC; correspondence of L, P and run bookkeeping + closed-form failure-probability search",
+            "Proof: NaiveElimination's state machine (round, sample_count, P as Pareto.fast of the per-design means of all observations) and the PAC guarantee for 2-D theta-cones with the property's sample count (sigma = sqrt(noise_var)): deviation event probability <= delta on Measure.pi of gaussianReal, and deviations <= eps/(2 beta) imply an accurate set (no member with gap > eps, every design eps-covered). The code's L formula is a RealLike term compared exactly after ceil; where the code's L is smaller than the property's, the closed-form failure probability of a worst-case instance is evaluated (found D1, now fixed).",
+            "Gaussian i.i.d. noise is a hypothesis; m = 2 cones (ConeTheta2D is the only bundled cone with beta); Monte-Carlo confirmations are labelled statistical tests."),
+    "C09": ("3.9", "Lean 4 theorems: vertex enumeration decides the forall-forall domination of boxes (any cone, scalar/vector slack, boundary included); ellipsoid closed form via support function + exact rational sqrt-inequality procedure; correspondence with confidence_region_is_dominated (equality on dyadic data, borderline band otherwise)",
+            "Proof: `Rect.isDominated` (the code's double vertex loop) is proved equivalent, for l <= u and every cone matrix, to the statement over all real points of both boxes; the ellipsoid decision (per-facet closed form decided exactly over Rat by squaring) is proved equivalent to the forall-forall statement for PSD-factor and positive-definite forms; the slack-size guards are modelled. Real code is compared for equality (touching cases generated deliberately) on exact inputs and outside a certified +-1e-6*scale band otherwise.",
+            "cvxpy/CLARABEL solutions of the per-facet SOCPs are compared, not verified; IEEE rounding exact only on the dyadic/integer streams."),
     "C13": ("3.13", "Lean 4 theorems about the executable Pareto loop (loop invariant, any preorder) + differential correspondence of get_pareto_set(_naive) against the model and its decidable spec relation",
             "Proof: `Pareto.fast` (split-form mirror of get_pareto_set) is proved, for every finite list and every reflexive transitive relation, to return a sublist of the indexed input that is an antichain, covers every input and contains no strictly dominated element. The tie to /repo is a correspondence check: the real routines run on dyadic-lattice sets with integer-row cones (exact float path) and their outputs must satisfy the Lean-evaluated spec relation (R) and, for pointed cones, keep the model's values (F).",
             "Trusts Lean kernel + standard axioms, the hand model's fidelity as validated by the generated cases (exhaustive small lattices in thorough), numpy float ops being exact on the dyadic/integer inputs."),
+    "C19": ("3.19", "Lean 4 theorems: smallM is the geometric gap (given attained alpha), delta=0 iff no interior dominator, KKT/Farkas certificate soundness for eps-coverage, F1 laws (range, =1, permutation, monotone in eps), hypervolume monotonicity; correspondence with get_smallmij/get_delta/is_covered/get_uncovered_*/calculate_epsilonF1_score/botorch hypervolume",
+            "Proof: the gap formula equals the largest admissible shift along all unit cone directions; eps-coverage verdicts are certified by checkers with soundness theorems; the F1 formula's laws are theorems about the modelled arithmetic. The real utilities are compared exactly on dyadic/integer inputs, is_covered outside the numerical band (1e-6 decided exactly; within 1e-3 relative the conic solver's tolerance governs), F1 exactly as a rational when robust.",
+            "The active-set search is untrusted (every verdict certified); cvxpy solutions compared not verified; hypervolume theorem is about the mathematical hypervolume, botorch compared."),
+    "C20": ("3.20", "Lean 4 theorems: first-nearest-design lookup, decoupled selection, second-moment algebra and exact Gaussian law of f + x·M (=> Cov = MᵀM), min-max / standardise / normalise algebra; correspondence with the three problem classes, get_noisy_evaluations_chol (applied matrix read off exactly), datasets and normalise/unnormalise",
+            "Proof: nearestFirst returns the first nearest design; decoupled evaluation returns exactly the requested components; for standard-normal rows the law of f + x·M is N(f, MᵀM), equal to the configured N(f, LLᵀ) iff MᵀM = LLᵀ; scaling round-trips. The real code is driven on dyadic grids (exact), np.random.normal is patched to read the applied matrix M exactly, inputs are hashed for immutability, bundled datasets are checked exactly from the exported floats (found D4, D5, now fixed).",
+            "numpy's RNG is assumed to deliver i.i.d. standard normals; sklearn scalers compared; the moment test in the thorough tier is a labelled statistical test."),
 }
 
 NOT_YET = "check not built yet in this session (planned: DESIGN.md §3); will be claimed once its Lean model, theorems and correspondence harness exist"
